@@ -49,7 +49,7 @@ Inductive observed :=
                                                               the pre-existing source files / which entries appeared *)
 | ObsCrashed (changed deleted new_names : list string)     (* a fresh target, convert() raised: what happened to the source *)
 | ObsCompressed (fs : files)       (* the directory after compress_spikes_dtypes *)
-| ObsStop                          (* StopIteration: no file matched *)
+| ObsStop (fs : files)             (* StopIteration: a glob matched nothing; the directory as it was left *)
 | ObsCrash.
 Record case := { cid : Z; cin : input; cobs : observed }.
 
@@ -193,12 +193,6 @@ Definition model_eq (i : inp) (src : files) (ci : conv_in) (o : obsrec) : option
       end
   end.
 
-(* compress_spikes_dtypes alone: for attribute in ['templates', 'clusters'] *)
-Definition compress_model (fs : files) : option files :=
-  match compress_first "spikes.templates." fs with
-  | None => None
-  | Some f2 => compress_first "spikes.clusters." f2
-  end.
 (* clause 28 on a bare directory: every file the two globs select is uint16 afterwards with unchanged ids < 65536 *)
 Definition compress_spec (fs out : files) : bool :=
   forallb (fun kv =>
@@ -218,8 +212,8 @@ Definition check (c : case) : list Z :=
                Nat.leb (List.length (filter (fun kv => glob1 "spikes.templates." "npy" (fst kv)) fs)) 1 &&
                Nat.leb (List.length (filter (fun kv => glob1 "spikes.clusters." "npy" (fst kv)) fs)) 1) then [3] else
       match compress_model fs, cobs c with
-      | None, ObsStop => []
-      | Some exp, ObsCompressed out => flag 1 (dir_eqb arr_eqb exp out) ++ flag 28 (compress_spec fs out)
+      | (None, lft), ObsStop out => flag 1 (dir_eqb arr_eqb lft out)
+      | (Some exp, _), ObsCompressed out => flag 1 (dir_eqb arr_eqb exp out) ++ flag 28 (compress_spec fs out)
       | _, _ => [1; 20]
       end
   | InBeyond i =>
@@ -260,7 +254,7 @@ Definition check (c : case) : list Z :=
     | ObsNotRefused _ _ _ => [1; 20]
     | ObsCrash => [1; 20]
     | ObsCrashed ch de nw => [1; 20] ++ flag 27 (frame_partial_b (i_has_raw i) ch de nw)
-    | ObsCompressed _ | ObsStop => [1; 20]
+    | ObsCompressed _ | ObsStop _ => [1; 20]
     | ObsConverted o =>
       match model_eq i src ci o with
       | None => [1]
